@@ -13,7 +13,7 @@ for p in ("work/confirm-seeds.log", "seeded/confirm.log"):
             if m: confirm[m.group(1)] = m.group(2)
 for sid in sorted(os.listdir(os.path.join(root, "seeded"))):
     d = os.path.join(root, "seeded", sid)
-    if not os.path.isdir(d): continue
+    if not os.path.isdir(d) or sid.endswith('-rejected'): continue
     a = json.load(open(os.path.join(d, "meta.agent.json")))
     r = json.load(open(os.path.join(d, "result.json"))) if os.path.exists(os.path.join(d, "result.json")) else {}
     demo = a.get("demo") or {}
